@@ -659,13 +659,14 @@ impl SymbolTable {
                     add_label(&mut label_map, label, 0, true)?;
                 }
                 StmtKind::Directive(Directive::Fill(PCOffset::Label(label))) => {
+                    // The label may only be declared external further down, so every labelled .fill
+                    // is recorded here and the non-external ones are dropped after the scan.
                     let label_text = label.name.to_uppercase();
-                    if let Some(SymbolData { external: true, .. }) = label_map.get(&label_text) {
-                        let Some(cur) = cursor.as_ref() else {
+                    match cursor.as_ref() {
+                        Some(cur) => { rel_map.insert(cur.lc, label_text); },
+                        None => if let Some(SymbolData { external: true, .. }) = label_map.get(&label_text) {
                             return Err(AsmErr::new(AsmErrKind::UndetAddrStmt, stmt.span.clone()));
-                        };
-
-                        rel_map.insert(cur.lc, label_text);
+                        }
                     }
                 },
                 _ => {}
@@ -694,6 +695,7 @@ impl SymbolTable {
         if let Some(cur) = cursor {
             return Err(AsmErr::new(AsmErrKind::UnclosedOrig, cur.block_orig));
         }
+        rel_map.retain(|_, label| matches!(label_map.get(label), Some(SymbolData { external: true, .. })));
         
         let debug_symbols = debug_sym.map(|(lines, src_info)| DebugSymbols {
             line_map: LineSymbolMap::new(lines)
